@@ -123,8 +123,8 @@ int vh_case(uint64_t id, int tier)
                 len[i] = l;
         }
         if(c.structured){
-                vh_case_timeout = 120;
-                alarm(120);
+                vh_case_timeout = 1500;
+                alarm(1500);
         }
         rc = kalign(seq, len, c.copies, c.threads, c.type, -1.0f, -1.0f, -1.0f, &rows, &alen);
         if(rc != OK){
